@@ -2,7 +2,7 @@
 From Coq Require Import List ZArith Bool.
 From Coq Require String.
 Import String.StringSyntax.
-From YS Require Import Base.Sexp Container.QueueWire Syntax.Indent Yarn.RunnerWire.
+From YS Require Import Base.Sexp Container.QueueWire Syntax.Indent Yarn.RunnerWire Markup.MarkupWire.
 Import ListNotations.
 Local Open Scope string_scope.
 
@@ -13,6 +13,9 @@ Definition dispatch (e : sexp) : sexp :=
       else if tag_is t "stack" then run_stack_case args
       else if tag_is t "indent" then run_indent_case args
       else if tag_is t "runner" then run_runner_case args
+      else if tag_is t "markup" then run_markup_case args
+      else if tag_is t "markuphist" then run_markuphist_case args
+      else if tag_is t "unicode" then run_unicode_case args
       else bad "unknown family"
   | None => bad "not a tagged list"
   end.
